@@ -1,7 +1,492 @@
-//! Implementation-side evaluator for the `scripts` correspondence checks (see props/).
+//! Implementation-side evaluator for the `scripts` correspondence checks (props/C18.py).
+//!
+//! ops:
+//! * `scripts`   — parse a caller-supplied nextest.toml (experimental setup-scripts enabled) over
+//!   the fixture package graph, pick a profile, apply caller-chosen build platforms and run the
+//!   real `SetupScripts::new_with_queries` / `SetupScript::is_enabled` /
+//!   `SetupScriptExecuteData::apply` through hook H6 (`config::verif_scripts`).
+//! * `parse_env` — the real `parse_env_file` on caller-supplied bytes (hook H6,
+//!   `runner::verif_script_helpers`).
+//! * `final_stats` — the public `RunStats::summarize_final` on caller-supplied setup-script
+//!   counters (everything else zero).
+//! * `run` — a real run of the real runner (public API only: `TestList::new`,
+//!   `TestRunnerBuilder::build`, `TestRunner::execute`) over scripted setup scripts and scripted
+//!   test binaries (shell scripts) that log what they see: event order, invocation log, the
+//!   environment received by every test process, final statistics.
+use crate::common::*;
+use camino::Utf8PathBuf;
+use nextest_filtering::{BinaryQuery, ParseContext, TestQuery};
+use nextest_metadata::RustBinaryId;
+use nextest_runner::{
+    cargo_config::{TargetDefinitionLocation, TargetTriple, TargetTripleSource},
+    config::{verif_scripts, ConfigExperimental, NextestConfig, ToolConfigFile},
+    platform::{BuildPlatforms, HostPlatform, PlatformLibdir, TargetPlatform},
+    reporter::events::{FinalRunStats, RunStats, RunStatsFailureKind},
+    runner::verif_script_helpers,
+};
 use serde_json::{json, Value};
+use std::collections::{BTreeMap, BTreeSet};
+use target_spec::{Platform, TargetFeatures};
+
+fn platform(triple: &str) -> Platform {
+    Platform::new(triple.to_owned(), TargetFeatures::Unknown).expect("known triple")
+}
+
+fn build_platforms(host: &str, target: Option<&str>) -> BuildPlatforms {
+    BuildPlatforms {
+        host: HostPlatform {
+            platform: platform(host),
+            libdir: PlatformLibdir::Available(Utf8PathBuf::from("/fake/host/libdir")),
+        },
+        target: target.map(|t| TargetPlatform {
+            triple: TargetTriple {
+                platform: platform(t),
+                source: TargetTripleSource::Env,
+                location: TargetDefinitionLocation::Builtin,
+            },
+            libdir: PlatformLibdir::Available(Utf8PathBuf::from("/fake/target/libdir")),
+        }),
+    }
+}
+
+fn unique_path(tag: &str) -> Utf8PathBuf {
+    use std::sync::atomic::{AtomicU64, Ordering};
+    static N: AtomicU64 = AtomicU64::new(0);
+    let dir = std::env::temp_dir();
+    let p = dir.join(format!(
+        "verif-scripts-{}-{}-{}.toml",
+        std::process::id(),
+        tag,
+        N.fetch_add(1, Ordering::Relaxed)
+    ));
+    Utf8PathBuf::try_from(p).expect("utf-8 temp dir")
+}
+
+fn scripts(case: &Value) -> Value {
+    let graph = graph();
+    let pcx = ParseContext::new(graph);
+    let path = unique_path("repo");
+    std::fs::write(&path, case["toml"].as_str().unwrap()).expect("write config");
+    let tool_path = case["tool_toml"].as_str().map(|t| {
+        let p = unique_path("tool");
+        std::fs::write(&p, t).expect("write tool config");
+        p
+    });
+    let tool_files: Vec<ToolConfigFile> = tool_path
+        .iter()
+        .map(|p| ToolConfigFile {
+            tool: "my-tool".to_owned(),
+            config_file: p.clone(),
+        })
+        .collect();
+    let experimental: BTreeSet<_> = [ConfigExperimental::SetupScripts].into_iter().collect();
+    let config = NextestConfig::from_sources(
+        graph.workspace().root(),
+        &pcx,
+        Some(&path),
+        &tool_files,
+        &experimental,
+    );
+    let _ = std::fs::remove_file(&path);
+    if let Some(p) = &tool_path {
+        let _ = std::fs::remove_file(p);
+    }
+    let config = match config {
+        Ok(c) => c,
+        Err(e) => {
+            let mut msg = e.to_string();
+            let mut src = std::error::Error::source(&e);
+            while let Some(s) = src {
+                msg.push_str(": ");
+                msg.push_str(&s.to_string());
+                src = s.source();
+            }
+            msg.push_str(&format!(" [{:?}]", e.kind()));
+            return json!({ "config_error": msg });
+        }
+    };
+    let profile = match config.profile(case["profile"].as_str().unwrap_or("default")) {
+        Ok(p) => p,
+        Err(e) => return json!({ "config_error": e.to_string() }),
+    };
+    let bp = build_platforms(
+        case["host"].as_str().unwrap_or("x86_64-unknown-linux-gnu"),
+        case["target"].as_str(),
+    );
+    let profile = profile.apply_build_platforms(&bp);
+
+    // queries: owned parts first, then borrowed views
+    struct Owned {
+        pkg: guppy::PackageId,
+        binary_id: RustBinaryId,
+        kind: nextest_metadata::RustTestBinaryKind,
+        binary_name: String,
+        platform: guppy::graph::cargo::BuildPlatform,
+        test: String,
+    }
+    let owned: Vec<Owned> = case["queries"]
+        .as_array()
+        .unwrap()
+        .iter()
+        .map(|q| Owned {
+            pkg: package_id(q["pkg"].as_str().unwrap()),
+            binary_id: RustBinaryId::new(q["binary_id"].as_str().unwrap()),
+            kind: kind_of(q["kind"].as_str().unwrap()),
+            binary_name: q["binary_name"].as_str().unwrap().to_owned(),
+            platform: match q["platform"].as_str().unwrap() {
+                "host" => guppy::graph::cargo::BuildPlatform::Host,
+                _ => guppy::graph::cargo::BuildPlatform::Target,
+            },
+            test: q["test"].as_str().unwrap().to_owned(),
+        })
+        .collect();
+    let queries: Vec<TestQuery<'_>> = owned
+        .iter()
+        .map(|o| TestQuery {
+            binary_query: BinaryQuery {
+                package_id: &o.pkg,
+                binary_id: &o.binary_id,
+                kind: &o.kind,
+                binary_name: &o.binary_name,
+                platform: o.platform,
+            },
+            test_name: &o.test,
+        })
+        .collect();
+    let selected: Vec<usize> = case["selected"]
+        .as_array()
+        .unwrap()
+        .iter()
+        .map(|x| x.as_u64().unwrap() as usize)
+        .collect();
+    let mut env_maps: BTreeMap<String, BTreeMap<String, String>> = BTreeMap::new();
+    if let Some(m) = case["env_maps"].as_object() {
+        for (sid, kv) in m {
+            let mut inner = BTreeMap::new();
+            for (k, v) in kv.as_object().unwrap() {
+                inner.insert(k.clone(), v.as_str().unwrap().to_owned());
+            }
+            env_maps.insert(sid.clone(), inner);
+        }
+    }
+
+    let view = verif_scripts::evaluate(&profile, &queries, &selected, &env_maps);
+    json!({
+        "defined": view.defined,
+        "rules": view.rules.iter().map(|r| json!({
+            "setup": r.setup,
+            "host_eval": r.host_eval,
+            "host_test_eval": r.host_test_eval,
+            "target_eval": r.target_eval,
+            "has_filter": r.has_filter,
+            "filter_matches": r.filter_matches,
+            "is_enabled": r.is_enabled,
+        })).collect::<Vec<_>>(),
+        "enabled": view.enabled,
+        "enabled_for": view.enabled_for,
+        "applied": view.applied.iter().map(|e| {
+            e.iter().map(|(k, v)| json!([k, v])).collect::<Vec<_>>()
+        }).collect::<Vec<_>>(),
+    })
+}
+
+fn parse_env(case: &Value) -> Value {
+    let bytes: Vec<u8> = case["bytes"]
+        .as_array()
+        .unwrap()
+        .iter()
+        .map(|b| b.as_u64().unwrap() as u8)
+        .collect();
+    match verif_script_helpers::parse_env_bytes(&bytes) {
+        Ok(map) => json!({
+            "ok": map.iter().map(|(k, v)| json!([k, v])).collect::<Vec<_>>()
+        }),
+        Err(kind) => json!({ "err": kind }),
+    }
+}
+
+fn final_stats(case: &Value) -> Value {
+    let n = |k: &str| case[k].as_u64().unwrap_or(0) as usize;
+    let stats = RunStats {
+        setup_scripts_initial_count: n("initial"),
+        setup_scripts_finished_count: n("finished"),
+        setup_scripts_passed: n("passed"),
+        setup_scripts_failed: n("failed"),
+        setup_scripts_exec_failed: n("exec_failed"),
+        setup_scripts_timed_out: n("timed_out"),
+        initial_run_count: n("tests_initial"),
+        finished_count: n("tests_finished"),
+        passed: n("tests_finished"),
+        ..RunStats::default()
+    };
+    // 1 = Failed(SetupScript), 2 = Cancelled(SetupScript), 0 = decided by the tests
+    match stats.summarize_final() {
+        FinalRunStats::Failed(RunStatsFailureKind::SetupScript) => json!(1),
+        FinalRunStats::Cancelled(RunStatsFailureKind::SetupScript) => json!(2),
+        _ => json!(0),
+    }
+}
+
+/// A real run. The case holds `toml` (with `@DIR@` standing for the scratch directory),
+/// `profile`, `scripts` (`name`, `exit`, `env_bytes`, `sleep_ms`, `hang`), `binaries` (`pkg`,
+/// `binary_id`, `tests`), `test_threads`.
+fn real_run(case: &Value) -> Value {
+    let dir = unique_path("run").with_extension("d");
+    std::fs::create_dir_all(&dir).expect("scratch dir");
+    let out = real_run_in(case, &dir);
+    let _ = std::fs::remove_dir_all(&dir);
+    out
+}
+
+fn real_run_in(case: &Value, dir: &Utf8PathBuf) -> Value {
+    use nextest_filtering::{CompiledExpr, EvalContext};
+    use nextest_runner::{
+        cargo_config::{CargoConfigs, EnvironmentMap},
+        double_spawn::DoubleSpawnInfo,
+        input::InputHandlerKind,
+        list::{RustBuildMeta, RustTestArtifact, TestExecuteContext, TestList},
+        reporter::events::TestEventKind,
+        runner::TestRunnerBuilder,
+        signal::SignalHandlerKind,
+        target_runner::TargetRunner,
+        test_filter::{FilterBound, RunIgnored, TestFilterBuilder},
+    };
+    use std::os::unix::fs::PermissionsExt;
+
+    let dir = dir.clone();
+    let log = dir.join("log");
+    std::fs::write(&log, "").unwrap();
+
+    // setup scripts
+    for sc in case["scripts"].as_array().unwrap() {
+        let name = sc["name"].as_str().unwrap();
+        let bytes: Vec<u8> = sc["env_bytes"]
+            .as_array()
+            .map(|a| a.iter().map(|b| b.as_u64().unwrap() as u8).collect())
+            .unwrap_or_default();
+        std::fs::write(dir.join(format!("envsrc-{name}")), bytes).unwrap();
+        let mut body = format!(
+            "printf 'S {name} start\\n' >> '{log}'\ncat '{dir}/envsrc-{name}' >> \"$NEXTEST_ENV\"\n"
+        );
+        if let Some(ms) = sc["sleep_ms"].as_u64() {
+            body.push_str(&format!("sleep {}.{:03}\n", ms / 1000, ms % 1000));
+        }
+        if sc["hang"].as_bool().unwrap_or(false) {
+            body.push_str("exec sleep 20\n");
+        }
+        body.push_str(&format!(
+            "printf 'S {name} end\\n' >> '{log}'\nexit {}\n",
+            sc["exit"].as_u64().unwrap_or(0)
+        ));
+        std::fs::write(dir.join(format!("script-{name}.sh")), body).unwrap();
+    }
+
+    // scripted test binaries
+    let graph = graph();
+    let mut artifacts = Vec::new();
+    for b in case["binaries"].as_array().unwrap() {
+        let id = b["binary_id"].as_str().unwrap();
+        let listing: String = strs(&b["tests"])
+            .iter()
+            .map(|t| format!("{t}: test\n"))
+            .collect();
+        std::fs::write(dir.join(format!("listing-{id}")), listing).unwrap();
+        let body = format!(
+            "#!/bin/sh\nif [ \"$1\" = \"--list\" ]; then\n  case \"$*\" in *--ignored*) exit 0;; esac\n  \
+             cat '{dir}/listing-{id}'\n  exit 0\nfi\nprintf 'T {id} %s\\n' \"$2\" >> '{log}'\n\
+             env > \"{dir}/testenv-{id}-$2\"\nexit 0\n"
+        );
+        let path = dir.join(format!("bin-{id}"));
+        std::fs::write(&path, body).unwrap();
+        std::fs::set_permissions(&path, std::fs::Permissions::from_mode(0o755)).unwrap();
+        let package = graph
+            .metadata(&package_id(b["pkg"].as_str().unwrap()))
+            .expect("package in fixture graph");
+        artifacts.push(RustTestArtifact {
+            binary_id: RustBinaryId::new(id),
+            package,
+            binary_path: path,
+            binary_name: id.to_owned(),
+            kind: kind_of("lib"),
+            non_test_binaries: BTreeSet::new(),
+            cwd: dir.clone(),
+            build_platform: platform_of("target"),
+        });
+    }
+
+    // configuration
+    let pcx = ParseContext::new(graph);
+    let config_path = dir.join("nextest.toml");
+    std::fs::write(
+        &config_path,
+        case["toml"].as_str().unwrap().replace("@DIR@", dir.as_str()),
+    )
+    .unwrap();
+    let experimental: BTreeSet<_> = [ConfigExperimental::SetupScripts].into_iter().collect();
+    let no_tools: Vec<ToolConfigFile> = Vec::new();
+    let config = match NextestConfig::from_sources(
+        graph.workspace().root(),
+        &pcx,
+        Some(&config_path),
+        &no_tools,
+        &experimental,
+    ) {
+        Ok(c) => c,
+        Err(e) => return json!({ "config_error": format!("{e} [{:?}]", e.kind()) }),
+    };
+    let profile_name = case["profile"].as_str().unwrap_or("default");
+    let bp = build_platforms("x86_64-unknown-linux-gnu", None);
+    let profile = config
+        .profile(profile_name)
+        .expect("profile")
+        .apply_build_platforms(&bp);
+
+    // test list
+    let double_spawn = DoubleSpawnInfo::disabled();
+    let target_runner = TargetRunner::empty();
+    let ctx = TestExecuteContext {
+        profile_name,
+        double_spawn: &double_spawn,
+        target_runner: &target_runner,
+    };
+    let ecx = EvalContext {
+        default_filter: &CompiledExpr::ALL,
+    };
+    let configs =
+        CargoConfigs::new_with_isolation(Vec::<String>::new(), &dir, &dir, Vec::new()).unwrap();
+    let env = EnvironmentMap::new(&configs);
+    let filter = TestFilterBuilder::default_set(RunIgnored::Default);
+    let test_list = match TestList::new(
+        &ctx,
+        artifacts,
+        RustBuildMeta::new(dir.join("target"), bp.clone())
+            .map_paths(&nextest_runner::reuse_build::PathMapper::noop()),
+        &filter,
+        dir.clone(),
+        env,
+        &ecx,
+        FilterBound::All,
+        2,
+    ) {
+        Ok(l) => l,
+        Err(e) => return json!({ "error": format!("test list: {e}") }),
+    };
+
+    let mut builder = TestRunnerBuilder::default();
+    if let Some(n) = case["test_threads"].as_u64() {
+        builder.set_test_threads(nextest_runner::config::TestThreads::Count(n as usize));
+    }
+    let runner = builder
+        .build(
+            &test_list,
+            &profile,
+            vec![],
+            SignalHandlerKind::Noop,
+            InputHandlerKind::Noop,
+            double_spawn.clone(),
+            TargetRunner::empty(),
+        )
+        .expect("runner");
+
+    let mut events: Vec<Value> = Vec::new();
+    let mut final_stats: Option<RunStats> = None;
+    let res = runner.execute(|event| match event.kind {
+        TestEventKind::SetupScriptStarted { script_id, .. } => {
+            events.push(json!(["script-started", script_id.to_string()]));
+        }
+        TestEventKind::SetupScriptFinished {
+            script_id,
+            run_status,
+            ..
+        } => {
+            use nextest_runner::reporter::events::ExecutionResult as R;
+            let code = match run_status.result {
+                R::Pass => 0,
+                R::Leak => 1,
+                R::Fail { .. } => 2,
+                R::ExecFail => 3,
+                R::Timeout => 4,
+            };
+            events.push(json!([
+                "script-finished",
+                script_id.to_string(),
+                code,
+                run_status.env_map.is_some()
+            ]));
+        }
+        TestEventKind::TestStarted { test_instance, .. } => {
+            events.push(json!([
+                "test-started",
+                test_instance.suite_info.binary_id.as_str(),
+                test_instance.name
+            ]));
+        }
+        TestEventKind::TestFinished { test_instance, .. } => {
+            events.push(json!([
+                "test-finished",
+                test_instance.suite_info.binary_id.as_str(),
+                test_instance.name
+            ]));
+        }
+        TestEventKind::RunBeginCancel { reason, .. } => {
+            events.push(json!(["begin-cancel", format!("{reason:?}")]));
+        }
+        TestEventKind::RunFinished { run_stats, .. } => {
+            final_stats = Some(run_stats);
+        }
+        _ => {}
+    });
+    if let Err(e) = res {
+        return json!({ "error": format!("execute: {e:?}") });
+    }
+
+    let log_lines: Vec<String> = std::fs::read_to_string(&log)
+        .unwrap_or_default()
+        .lines()
+        .map(|l| l.to_owned())
+        .collect();
+    let mut test_envs = serde_json::Map::new();
+    for b in case["binaries"].as_array().unwrap() {
+        let id = b["binary_id"].as_str().unwrap();
+        for t in strs(&b["tests"]) {
+            if let Ok(bytes) = std::fs::read(dir.join(format!("testenv-{id}-{t}"))) {
+                let text = String::from_utf8_lossy(&bytes).into_owned();
+                let vars: Vec<Value> = text
+                    .lines()
+                    .filter_map(|l| l.split_once('=').map(|(k, v)| json!([k, v])))
+                    .collect();
+                test_envs.insert(format!("{id} {t}"), Value::Array(vars));
+            }
+        }
+    }
+    let stats = final_stats.unwrap_or_default();
+    let summary = match stats.summarize_final() {
+        FinalRunStats::Success => "success",
+        FinalRunStats::NoTestsRun => "no-tests-run",
+        FinalRunStats::Failed(RunStatsFailureKind::SetupScript) => "failed-setup-script",
+        FinalRunStats::Cancelled(RunStatsFailureKind::SetupScript) => "cancelled-setup-script",
+        FinalRunStats::Failed(RunStatsFailureKind::Test { .. }) => "failed-test",
+        FinalRunStats::Cancelled(RunStatsFailureKind::Test { .. }) => "cancelled-test",
+    };
+    json!({
+        "events": events,
+        "log": log_lines,
+        "test_envs": test_envs,
+        "summary": summary,
+        "scripts_initial": stats.setup_scripts_initial_count,
+        "scripts_finished": stats.setup_scripts_finished_count,
+        "tests_initial": stats.initial_run_count,
+        "tests_finished": stats.finished_count,
+    })
+}
 
 pub fn run(case: &Value) -> Value {
-    let _ = case;
-    json!({ "error": "not implemented" })
+    match case["op"].as_str().unwrap_or("") {
+        "scripts" => scripts(case),
+        "run" => real_run(case),
+        "parse_env" => parse_env(case),
+        "final_stats" => final_stats(case),
+        "exit_code" => json!(nextest_metadata::NextestExitCode::SETUP_SCRIPT_FAILED),
+        other => json!({ "error": format!("unknown op {other}") }),
+    }
 }
